@@ -162,6 +162,9 @@ def run(ctx):
                         k.arg == 'days' and isinstance(k.value, ast.Name) and k.value.id == g.target.id for k in td.keywords)
                     if isinstance(base, tuple) and base[1] == 'start' and is_td:
                         found = (n, g.iter.args[0])
+    if found is None:
+        raise AnalysisError('day-folder enumeration has a shape the day-count interpretation does not model '
+                            '(expected `[start + timedelta(days=i) for i in range(N)]`)')
     if found is not None:
         n, count = found
         v = da.ev(count)
